@@ -2,6 +2,7 @@ use crate::ev::PropCtx;
 use crate::rt::DynSub;
 
 pub mod c01;
+pub mod c02;
 pub mod c03;
 pub mod c04;
 pub mod c04_dgram;
@@ -25,6 +26,7 @@ pub struct Property {
 pub fn registry() -> Vec<Property> {
     vec![
         Property { id: "C01", run: c01::run, subs: c01::subs },
+        Property { id: "C02", run: c02::run, subs: c02::subs },
         Property { id: "C03", run: c03::run, subs: c03::subs },
         Property { id: "C04", run: c04::run, subs: c04::subs },
         Property { id: "C05", run: c05::run, subs: c05::subs },
